@@ -348,7 +348,11 @@ func CorpusHistories(scratch string, names map[string]bool) ([]*History, []strin
 					if s.scriptKeep != nil { // the call of block 3 once more, bit for bit, then a fresh one
 						again := *s.scriptKeep
 						again.Note = "script-call-delivered-again"
-						return []*TxSpec{&again, t}
+						// and, where nothing has to be paid, a transfer out of somebody else's account signed with one's own key
+						forged := s.TxTransfer(s.User(1), s.User(0).Addr, "777")
+						forged.From, forged.Nonce = s.User(0).Addr, t.Nonce
+						forged.SignerLabel, forged.Note = s.User(1).Name, "signed-by-other-on-a-fee-less-chain"
+						return []*TxSpec{&again, forged, t}
 					}
 				}
 			}
